@@ -1720,6 +1720,135 @@ impl Real {
                 self.check_args(rep, line, &[w[1]]);
                 "ok".into()
             }
+            ("qrace", 3) => {
+                // C API queries and ref/unref on several threads while one more thread reorders the
+                // variables through the C API (BDD, BCDD; ZBDD managers are not reordered with
+                // nodes, KF-zbdd-reorder: there the extra thread collects garbage). Every query
+                // answer is independent of the variable order, or constrained by the function alone:
+                //   node_var(f) is a variable f depends on (the top variable of a reduced ordered
+                //   diagram), NONE for constants; node_level(f) < n; eval, sat_count as the truth
+                //   table says; ref returns the same handle.
+                let (threads, rounds) = (num(w[1])? as usize, num(w[2])? as usize);
+                if threads == 0 || threads > 16 || rounds == 0 || rounds > 1_000_000 || n > 10 {
+                    return None;
+                }
+                struct Sh<T>(T);
+                unsafe impl<T> Send for Sh<T> {}
+                unsafe impl<T> Sync for Sh<T> {}
+                let zb = self.kind == 2;
+                let mut items: Vec<(String, CF, Vec<bool>, Vec<u32>)> = Vec::new();
+                for (k, e) in self.h.iter() {
+                    if e.cnt > 0 && e.c.ok() {
+                        let tt: Vec<bool> = (0..1u64 << n).map(|x| self.c_eval(e.c, x, n)).collect();
+                        let supp: Vec<u32> = (0..n).filter(|v| (0..1usize << n).any(|x| tt[x] != tt[x ^ (1 << v)])).collect();
+                        items.push((k.clone(), e.c, tt, supp));
+                    }
+                }
+                if items.is_empty() {
+                    return Some("none".into());
+                }
+                let orig: Vec<u32> = (0..n).map(|l| unsafe { (api.level_to_var)(cm, l) }).collect();
+                let done = std::sync::atomic::AtomicBool::new(false);
+                let fails: std::sync::Mutex<Vec<String>> = std::sync::Mutex::new(Vec::new());
+                let queries = std::sync::atomic::AtomicUsize::new(0);
+                let (node_var, node_level, eval, scd, fref, funref, svo, gc) = (api.node_var, api.node_level, api.eval, api.sat_count_double, api.fref, api.funref, api.set_var_order, api.gc);
+                let shared = Sh((cm, &items));
+                std::thread::scope(|s| {
+                    let (shared, done, fails, queries, orig) = (&shared, &done, &fails, &queries, &orig);
+                    s.spawn(move || {
+                        let cm = shared.0 .0;
+                        let mut ord = orig.clone();
+                        for r in 0..rounds {
+                            if zb {
+                                unsafe { gc(cm) };
+                            } else {
+                                let i = r % (ord.len() - 1).max(1);
+                                if ord.len() > 1 {
+                                    ord.swap(i, i + 1);
+                                }
+                                if r % 7 == 3 {
+                                    ord.reverse();
+                                }
+                                unsafe { svo(cm, ord.as_ptr(), ord.len()) };
+                            }
+                        }
+                        if !zb {
+                            unsafe { svo(cm, orig.as_ptr(), orig.len()) };
+                        }
+                        done.store(true, std::sync::atomic::Ordering::SeqCst);
+                    });
+                    for t in 0..threads {
+                        s.spawn(move || {
+                            let items = shared.0 .1;
+                            let mut it = t;
+                            let mut local = 0usize;
+                            while !(done.load(std::sync::atomic::Ordering::SeqCst) && local >= rounds) {
+                                let (k, c, tt, supp) = &items[it % items.len()];
+                                let c = *c;
+                                let mut bad = |m: String| {
+                                    let mut f = fails.lock().unwrap();
+                                    if f.len() < 3 {
+                                        f.push(m);
+                                    }
+                                };
+                                let v = unsafe { node_var(c) };
+                                let l = unsafe { node_level(c) };
+                                if !zb {
+                                    if supp.is_empty() {
+                                        if v != NONE32 || l != NONE32 {
+                                            bad(format!("handle {k} is constant: node_var {v}, node_level {l}"));
+                                        }
+                                    } else {
+                                        if !supp.contains(&v) {
+                                            bad(format!("node_var({k}) = {v}: the function depends on the variables {supp:?} only"));
+                                        }
+                                        if l >= n {
+                                            bad(format!("node_level({k}) = {l} with {n} levels"));
+                                        }
+                                    }
+                                }
+                                let bits = (it as u64).wrapping_mul(0x9E37_79B9) % (1u64 << n);
+                                let args: Vec<CVarBool> = (0..n).map(|v| CVarBool { var: v, val: (bits >> v) & 1 != 0 }).collect();
+                                let e = unsafe { eval(c, args.as_ptr(), args.len()) };
+                                if e != tt[bits as usize] {
+                                    bad(format!("eval({k}, {bits:b}) = {e}, the truth table says {}", tt[bits as usize]));
+                                }
+                                if it % 4 == 0 {
+                                    let d = unsafe { scd(c, n) };
+                                    let want = tt.iter().filter(|b| **b).count() as f64;
+                                    if d != want {
+                                        bad(format!("sat_count_double({k}, {n}) = {d}, the truth table has {want} ones"));
+                                    }
+                                }
+                                let c2 = unsafe { fref(c) };
+                                if c2 != c {
+                                    bad(format!("ref({k}) returned a different handle"));
+                                }
+                                unsafe { funref(c2) };
+                                it += threads;
+                                local += 1;
+                            }
+                            queries.fetch_add(local, std::sync::atomic::Ordering::SeqCst);
+                        });
+                    }
+                });
+                *rep.counts.entry("qrace_queries".into()).or_insert(0) += queries.load(std::sync::atomic::Ordering::SeqCst) as u64;
+                *rep.counts.entry("qrace_reorderings".into()).or_insert(0) += if zb { 0 } else { rounds as u64 };
+                for m in fails.into_inner().unwrap() {
+                    rep.fail("capi-query-during-reordering", &format!("`{line}`: {m} (queries on {threads} threads while another thread calls {})", if zb { "gc" } else { "set_var_order" }));
+                }
+                // the functions are the same afterwards, the order is the original one again
+                for (k, c, tt, _) in &items {
+                    let now: Vec<bool> = (0..1u64 << n).map(|x| self.c_eval(*c, x, n)).collect();
+                    if &now != tt {
+                        rep.fail("capi-order-changed-function", &format!("`{line}`: handle {k} denotes a different function after the concurrent phase"));
+                    }
+                }
+                unsafe { (api.gc)(cm) };
+                self.rs.as_mut().unwrap().gc();
+                self.check_handles(rep, "after qrace");
+                "ok".into()
+            }
             ("gc", 1) => {
                 unsafe { (api.gc)(cm) };
                 let c = unsafe { (api.num_inner_nodes)(cm) };
@@ -2081,6 +2210,13 @@ impl Real {
                         rep.fail("capi-mirror-dddmp", &e);
                     }
                     let (a, b) = (std::fs::read(&cpath).unwrap_or_default(), std::fs::read(&rpath).unwrap_or_default());
+                    if a != b {
+                        rep.count("dddmp_bytes_differ_numbering");
+                    }
+                    // the numbering of the nodes of one level follows the iteration order of that
+                    // level's unique table, i.e. the slot numbers the two managers happened to
+                    // hand out: the files are compared up to a renumbering of the nodes
+                    let (a, b) = (canon_dddmp_ascii(&a), canon_dddmp_ascii(&b));
                     if a != b {
                         rep.fail("capi-differs", &format!("`{line}`: the DDDMP file written through the C API ({} bytes) differs from the Rust API's ({} bytes): {cpath} {rpath}", a.len(), b.len()));
                     } else {
@@ -3643,6 +3779,44 @@ fn generate(cfg: &GenCfg, rng: &mut Rng, w: &mut dyn Write) {
             let n = rng.range(3, 6) as u32;
             let len = rng.range(8, if cfg.thorough { 60 } else { 35 }) as usize;
             random_case(rng, w, &format!("rnd-{kind}-{i}"), kind, n, len, None);
+        }
+    } else if suite == "race" {
+        // queries on several threads while another one reorders (oracle only)
+        let cases = if cfg.thorough { 240 * scale } else { 30 * scale };
+        for i in 0..cases {
+            let kind = kinds[i % 3];
+            let n = rng.range(3, 6) as u32;
+            writeln!(w, "case race-{kind}-{i}").unwrap();
+            writeln!(w, "mgr {kind} vars={n}").unwrap();
+            let mut pool: Vec<String> = Vec::new();
+            for v in 0..n {
+                writeln!(w, "var x{v} {v}").unwrap();
+                pool.push(format!("x{v}"));
+            }
+            writeln!(w, "const cT T").unwrap();
+            pool.push("cT".into());
+            for j in 0..rng.range(4, 12) {
+                let (a, b) = (rng.pick(&pool).clone(), rng.pick(&pool).clone());
+                let op = *rng.pick(&["and", "or", "xor", "imp", "nand", "equiv"]);
+                writeln!(w, "op g{j} {op} {a} {b}").unwrap();
+                pool.push(format!("g{j}"));
+            }
+            if kind != "zbdd" && rng.chance(1, 2) {
+                let mut order: Vec<u32> = (0..n).collect();
+                rng.shuffle(&mut order);
+                let l: Vec<String> = order.iter().map(|v| v.to_string()).collect();
+                writeln!(w, "order {}", l.join(" ")).unwrap();
+            }
+            let threads = rng.range(1, 6);
+            let rounds = if cfg.thorough { 4000 } else { 1500 };
+            writeln!(w, "qrace {threads} {rounds}").unwrap();
+            writeln!(w, "gc").unwrap();
+            for h in &pool {
+                writeln!(w, "tt {h}").unwrap();
+                writeln!(w, "unref {h}").unwrap();
+            }
+            writeln!(w, "gc").unwrap();
+            writeln!(w, "end").unwrap();
         }
     } else if suite == "oom" {
         let cases = if cfg.thorough { 6000 * scale } else { 300 * scale };
